@@ -109,3 +109,26 @@ Proof.
   apply fold_left_ext_in. intros acc2 pos _.
   rewrite fold_left_map. reflexivity.
 Qed.
+
+(* ------------------------------------------------------------------ *)
+(* Cell2::periodic_images and OccupiedSite::positions as iterator pipelines                              *)
+
+Lemma filter_ext_in {A} (f g : A -> bool) (l : list A) :
+  (forall x, In x l -> f x = g x) -> filter f l = filter g l.
+Proof.
+  induction l as [|x l IH]; intros H; [reflexivity|]. cbn [filter].
+  rewrite (H x (or_introl eq_refl)), IH; [reflexivity|]. intros y Hy. apply H. now right.
+Qed.
+
+Theorem periodic_images_is_source : forall (NN : Num) (c : cell NN) (t : tf NN) (k : Z) (zero : bool),
+  gen_periodic_images NN c t k zero = periodic_images NN c t k zero.
+Proof.
+  intros NN c t k zero. unfold gen_periodic_images, periodic_images, shell_indices.
+  rewrite (filter_ext_in _ (fun xy => negb (andb (negb zero) (andb (fst xy =? 0)%Z (snd xy =? 0)%Z)))).
+  - apply map_ext. intros [x y]. reflexivity.
+  - intros [x y] _. cbn [fst snd]. now rewrite andb_assoc.
+Qed.
+
+Theorem positions_is_source : forall (NN : Num) (syms : list (tf NN)) (s : site NN),
+  gen_positions NN syms s = positions NN syms s.
+Proof. intros NN syms s. unfold gen_positions, positions. cbv zeta. now rewrite map_map. Qed.
